@@ -728,7 +728,10 @@ class MemorizedFunc(Logger):
             old_func_code, old_first_line = extract_first_line(
                 self.store_backend.get_cached_func_code([self.func_id])
             )
-        except (IOError, OSError):  # some backend can also raise OSError
+        except (IOError, OSError, ValueError):
+            # some backend can also raise OSError; ValueError (including
+            # UnicodeDecodeError): the recorded code cannot be parsed, e.g.
+            # the process writing it was killed in the middle of the write.
             # No recorded code: results found here, if any, were computed by
             # unknown code (e.g. the process clearing this function's cache
             # was killed after removing func_code.py but before removing all
